@@ -67,8 +67,11 @@ class _ApproximateMarginalLogLikelihood(MarginalLogLikelihood, ABC):
 
         # Log prior term
         log_prior = torch.zeros_like(log_likelihood)
+        res_ndim = log_prior.ndim
         for name, module, prior, closure, _ in self.named_priors():
-            log_prior.add_(prior.log_prob(closure(module)).sum().div(self.num_data))
+            # (each batch element gets the priors of its own hyper-parameters, as in ExactMarginalLogLikelihood)
+            prior_term = prior.log_prob(closure(module))
+            log_prior.add_(prior_term.view(*prior_term.shape[:res_ndim], -1).sum(dim=-1).div(self.num_data))
 
         if self.combine_terms:
             return log_likelihood - kl_divergence + log_prior - added_loss
